@@ -650,17 +650,19 @@ func qnCase(b *base, height, wm, ts uint64) result {
 type sizes struct {
 	N     int64  // counter messages per key
 	B     int64  // flip bases per key (plus every leading-zero proof)
-	A     int64  // adversarial-prover bases per key (plus every leading-zero proof up to lzCap)
+	A     int64  // adversarial-prover bases per key (plus the first lzCap leading-zero proofs of every worker)
 	K     uint64 // nonces per (base, T)
 	Q     int64  // qualification bases per key (plus every leading-zero proof)
-	lzCap int64  // leading-zero proofs per worker that get the full treatment
+	lzCap int64  // leading-zero proofs per worker handed to the adversarial prover (flips and grid: all of them)
 }
 
 func sizesFor(thorough bool) sizes {
 	if thorough {
-		return sizes{N: 1 << 17, B: 48, A: 32, K: 64, Q: 64, lzCap: 1 << 30}
+		// N covers (key 0, i=33003) and (key 2, i=4870): proofs with two leading zero bytes
+		return sizes{N: 40960, B: 48, A: 32, K: 64, Q: 64, lzCap: 8}
 	}
-	return sizes{N: 4096, B: 8, A: 8, K: 16, Q: 16, lzCap: 1 << 30}
+	// N covers (key 2, i=4870): a proof with two leading zero bytes
+	return sizes{N: 5120, B: 4, A: 4, K: 16, Q: 8, lzCap: 1}
 }
 
 func runFlips(c *fw.Ctx, b *base) bool {
@@ -737,6 +739,7 @@ func run(c *fw.Ctx) {
 		}
 	}
 	sampled := 0
+	var lzAdv int64
 	for k := 0; k < nKeys && !capped; k++ {
 		for _, series := range []string{"ctr", "len"} {
 			n := sz.N
@@ -772,7 +775,11 @@ func run(c *fw.Ctx) {
 						break
 					}
 				}
-				if tors != nil && ((first && i < sz.A) || b.lz > 0) {
+				advLz := b.lz > 0 && (lzAdv < sz.lzCap || b.lz > 1)
+				if advLz {
+					lzAdv++
+				}
+				if tors != nil && ((first && i < sz.A) || advLz) {
 					if !runAdversary(c, b, sz.K) {
 						stop("time budget: adversarial prover part incomplete")
 						break
@@ -852,7 +859,7 @@ func main() {
 			if t == "thorough" {
 				return 18 * time.Minute
 			}
-			return 70 * time.Second
+			return 80 * time.Second
 		},
 	})
 }
